@@ -1,2 +1,4 @@
 -- root of the library: every property module (and through them every model and proof module)
 import DoviModel.Props.C13
+import DoviModel.Props.C01
+import DoviModel.Props.C02
